@@ -33,6 +33,9 @@ pub struct Case {
     pub tablets: bool,
     /// keys: one i32 seed per request, expanded to pk values
     pub keys: Vec<i32>,
+    /// other keyspaces of the same cluster (never queried; their replication shares the driver's precomputation)
+    #[serde(default)]
+    pub siblings: Vec<MStrategy>,
 }
 
 fn pk_value(kind: u8, seed: i32, pos: usize) -> (MType, MVal) {
@@ -161,11 +164,20 @@ pub fn oracle(c: &Case) -> Verdict {
         tablets: c.tablets,
         tables: vec![TableDef { name: "t".into(), columns, partitioner: if c.cdc { Some("com.scylladb.dht.CDCPartitioner".into()) } else { None } }],
     };
+    let mut keyspaces = vec![ks];
+    for (i, sib) in c.siblings.iter().enumerate() {
+        let replication: Vec<(String, String)> = match sib {
+            MStrategy::Simple(rf) => vec![("class".into(), "org.apache.cassandra.locator.SimpleStrategy".into()), ("replication_factor".into(), rf.to_string())],
+            MStrategy::Nts(m) => std::iter::once(("class".to_string(), "org.apache.cassandra.locator.NetworkTopologyStrategy".to_string())).chain(m.iter().map(|(k, v)| (k.clone(), v.to_string()))).collect(),
+            _ => vec![("class".into(), "org.apache.cassandra.locator.LocalStrategy".into())],
+        };
+        keyspaces.push(KsDef { name: format!("sibling{i}"), replication, tablets: false, tables: vec![] });
+    }
     let prefer = c.prefer_dc.map(|d| topo::dc_name(d % 3));
     let prefer2 = prefer.clone();
     let spec = EnvSpec {
         nodes: specs.clone(),
-        keyspaces: vec![ks],
+        keyspaces,
         features: Features { tablets: c.tablets, ..Default::default() },
         fetch_schema: true,
         configure: Box::new(move |b| match &prefer2 {
@@ -383,12 +395,12 @@ pub fn oracle(c: &Case) -> Verdict {
         .class_if(pk_positions.windows(2).any(|w| w[0] > w[1]), "permuted_markers"))
 }
 
-pub fn case() -> BoxedStrategy<Case> {
+fn free_case() -> BoxedStrategy<Case> {
     (
         proptest::collection::vec((0u8..3, 0u8..3, proptest::collection::vec(any::<i64>(), 1..=3), prop_oneof![1 => Just(0u8), 3 => 1u8..=8], any::<bool>()), 1..=6),
         prop_oneof![
             2 => (1usize..=4).prop_map(MStrategy::Simple),
-            3 => proptest::collection::btree_map((0u8..3).prop_map(topo::dc_name), 0usize..=3, 1..=3).prop_map(MStrategy::Nts),
+            3 => proptest::collection::btree_map((0u8..3).prop_map(topo::dc_name), 0usize..=4, 1..=3).prop_map(MStrategy::Nts),
         ],
         proptest::collection::vec(0u8..3, 1..=3),
         any::<u64>(),
@@ -397,8 +409,15 @@ pub fn case() -> BoxedStrategy<Case> {
         proptest::option::weighted(0.3, 0u8..3),
         prop::bool::weighted(0.2),
         proptest::collection::vec(any::<i32>(), 4..=12),
+        proptest::collection::vec(
+            prop_oneof![
+                1 => (1usize..=4).prop_map(MStrategy::Simple),
+                4 => proptest::collection::btree_map((0u8..3).prop_map(topo::dc_name), 0usize..=6, 1..=3).prop_map(MStrategy::Nts),
+            ],
+            0..=2,
+        ),
     )
-        .prop_map(|(nodes, strategy, pk, marker_perm, extra_markers, cdc, prefer_dc, tablets, keys)| Case {
+        .prop_map(|(nodes, strategy, pk, marker_perm, extra_markers, cdc, prefer_dc, tablets, keys, siblings)| Case {
             nodes,
             strategy,
             pk,
@@ -408,12 +427,45 @@ pub fn case() -> BoxedStrategy<Case> {
             prefer_dc,
             tablets,
             keys,
+            siblings,
         })
         .boxed()
 }
 
+/// One datacenter whose replication factors exceed its rack count, under several keyspaces at once.
+fn crowded_dc_case() -> BoxedStrategy<Case> {
+    (
+        proptest::collection::vec((0u8..2, proptest::collection::vec(any::<i64>(), 1..=3), prop_oneof![1 => Just(0u8), 2 => 1u8..=4]), 4..=6),
+        2usize..=4,
+        proptest::collection::vec(1usize..=6, 1..=2),
+        proptest::collection::vec(0u8..3, 1..=2),
+        any::<u64>(),
+        proptest::collection::vec(any::<i32>(), 8..=12),
+    )
+        .prop_map(|(nodes, rf, sib_rfs, pk, marker_perm, keys)| {
+            let dc = topo::dc_name(0);
+            Case {
+                nodes: nodes.into_iter().map(|(rack, tokens, shards)| (0u8, rack, tokens, shards, false)).collect(),
+                strategy: MStrategy::Nts([(dc.clone(), rf)].into_iter().collect()),
+                pk,
+                marker_perm,
+                extra_markers: 0,
+                cdc: false,
+                prefer_dc: None,
+                tablets: false,
+                keys,
+                siblings: sib_rfs.into_iter().map(|r| MStrategy::Nts([(dc.clone(), r)].into_iter().collect())).collect(),
+            }
+        })
+        .boxed()
+}
+
+pub fn case() -> BoxedStrategy<Case> {
+    prop_oneof![5 => free_case(), 1 => crowded_dc_case()].boxed()
+}
+
 pub fn run(ctx: &Ctx, rep: &mut Report) {
-    rep.rule = "Cases: a mock cluster of 1..6 nodes in up to 3 DCs/racks with 1-3 vnodes each, 1..8 shards per node or unsharded, with or without a shard-aware port; a keyspace with SimpleStrategy or NetworkTopologyStrategy (per-DC RF 0..3) whose schema the driver fetches; a table with 1..3 partition-key columns (int/text/bigint) bound at permuted marker positions, or a CDC-partitioned table; optional session-level DC preference; optional tablets (4 tablets announced through response payloads when a request lands on a non-owner); 4..12 keys each executed once after the pools are full. Oracle on the mock's log: the first frame of each logical request is received by a reference replica of the key's token (in the preferred DC when it holds one) on a connection of the owning shard whenever such a connection exists, and the QueryResult names that node. Non-trivial = >= 2 nodes with a multi-shard node, or a tablet table.".into();
+    rep.rule = "Cases: a mock cluster of 1..6 nodes in up to 3 DCs/racks with 1-3 vnodes each, 1..8 shards per node or unsharded, with or without a shard-aware port; a keyspace with SimpleStrategy or NetworkTopologyStrategy (per-DC RF 0..4) whose schema the driver fetches, next to 0..2 sibling keyspaces with replication of their own (RF 0..6); a table with 1..3 partition-key columns (int/text/bigint) bound at permuted marker positions, or a CDC-partitioned table; optional session-level DC preference; optional tablets (4 tablets announced through response payloads when a request lands on a non-owner); 4..12 keys each executed once after the pools are full. Oracle on the mock's log: the first frame of each logical request is received by a reference replica of the key's token (in the preferred DC when it holds one) on a connection of the owning shard whenever such a connection exists, and the QueryResult names that node. Non-trivial = >= 2 nodes with a multi-shard node, or a tablet table.".into();
     rep.trusted_base = vec!["reference token (vkit::wire::token), reference replica walkers (vkit::topo), u128 shard_of reference, mock cluster".into()];
     rep.assumptions = vec![
         "requests are issued after every (node, shard) has a live connection".into(),
